@@ -186,11 +186,11 @@ def container_forms(leaf, depth):
 
 
 def nested_container(t):
-    """a container directly inside a container (does not compile as a message field: C12 known finding)"""
+    """a container directly inside a container (as a message field this did not compile before /repo ad2e520)"""
     return t[0] in "am" and (t[1] if t[0] == "a" else t[2])[0] in "am"
 
 
-def build_cover(depth=2, with_nested_in_messages=False):
+def build_cover(depth=2, with_nested_in_messages=True):
     """returns (schema, list of (Def, tags)) -- every leaf x container form placed in each record context"""
     s = Schema()
     recs = base_records(s)
